@@ -305,19 +305,44 @@ Proof.
     destruct (Z.odd (fi_ba fi * fi_spp fi * np)); destruct Hba as [ -> | [ -> | -> ] ]; destruct Hs as [ -> | -> ]; lia.
 Qed.
 
-(* C01 for the Go entry point decodeFrame with its FrameInfo argument (allocation included) *)
+Lemma rle_decode_gen_chk : forall g data, frame_size g <= max_alloc ->
+  rle_decode_gen true g data = rle_decode_gen false g data.
+Proof.
+  intros g data H. unfold rle_decode_gen.
+  destruct (zlen data =? 0); [reflexivity|]. destruct (g_npix g =? 0); [reflexivity|].
+  destruct (new_decoder data) as [d| | |]; try reflexivity. cbn [obind].
+  destruct (d_nseg d =? nseg g); [|reflexivity].
+  destruct (Z.gtb_spec (frame_size g) max_alloc); [lia|reflexivity].
+Qed.
+
+Lemma fi_ok_not_rejected : forall fi, fi_ok fi -> fi_rejected fi = false.
+Proof.
+  intros fi (Hh & Hw & Hb & _). unfold fi_rejected.
+  destruct (Z.eqb_spec (fi_width fi) 0); [lia|]. destruct (Z.eqb_spec (fi_height fi) 0); [lia|].
+  destruct (Z.eqb_spec (fi_bits fi) 0); [lia|]. reflexivity.
+Qed.
+
+(* the FrameInfo-level entry points coincide with the geometry-level ones on accepted descriptions *)
+Theorem rle_frame_entry : forall fi bytes, fi_ok fi ->
+  rle_encode_frame fi bytes = rle_encode (fi_geom fi) bytes /\
+  rle_decode_frame fi bytes = rle_decode (fi_geom fi) bytes.
+Proof.
+  intros fi bytes Hfi. destruct (fi_ok_geom fi Hfi) as [Hg Hsz].
+  unfold rle_encode_frame, rle_decode_frame. rewrite (fi_ok_not_rejected fi Hfi). split.
+  - unfold rle_encode. destruct (zlen bytes =? 0); reflexivity.
+  - rewrite rle_decode_gen_chk by assumption. unfold rle_decode, rle_decode_gen.
+    destruct (zlen bytes =? 0); reflexivity.
+Qed.
+
+(* C01 for the Go entry points encodeFrame / decodeFrame with their FrameInfo argument
+   (description checks and allocation included) *)
 Theorem rle_roundtrip_frameinfo : forall fi frame enc, fi_ok fi -> bytesP frame ->
   zlen frame = frame_len (fi_geom fi) ->
-  rle_encode (fi_geom fi) frame = Ok enc ->
+  rle_encode_frame fi frame = Ok enc ->
   rle_decode_frame fi enc = Ok (frame ++ pad_of (fi_geom fi)).
 Proof.
   intros fi frame enc Hfi Hb Hlen He. destruct (fi_ok_geom fi Hfi) as [Hg Hsz].
-  destruct (rle_roundtrip (fi_geom fi) frame enc Hg Hb Hlen He) as [Hd Hv].
-  unfold rle_decode_frame.
-  assert (H64 : 64 <= zlen enc).
-  { unfold annexG_valid in Hv. repeat (apply andb_prop in Hv; destruct Hv as [Hv ?]).
-    apply Z.leb_le. assumption. }
-  destruct (Z.eqb_spec (zlen enc) 0); [lia|].
-  destruct (Z.gtb_spec (frame_size (fi_geom fi)) max_alloc); [lia|].
-  exact Hd.
+  destruct (rle_frame_entry fi frame Hfi) as [Ee _]. destruct (rle_frame_entry fi enc Hfi) as [_ Ed].
+  rewrite Ee in He. rewrite Ed.
+  apply (rle_roundtrip (fi_geom fi) frame enc Hg Hb Hlen He).
 Qed.
